@@ -14,11 +14,15 @@ CLAIMED = {
               "(EOF / endless / over-read-stall faults) under a seeded demand "
               "schedule, read-budget invariant against an executed "
               "minimal-read reference pipeline",
-    text="Seeded exploration of stage pipelines (depth 1-3, fan-out) over "
-         "simulator-owned sources; after construction and after every demand "
-         "step the reads of every source are bounded by a minimal-read "
-         "reference pipeline driven by the same schedule. Samples pipelines "
-         "and schedules; a clean batch is evidence, not proof.",
+    text="Seeded exploration of stage pipelines (depth 1-3, fan-out through "
+         "copy/tee/thub, 122 stage families incl. filters with Stream "
+         "parameters, synthesis stages, blockenizers, overlap-add/STFT, mixer, "
+         "resampler, record stream) over simulator-owned sources (finite with "
+         "seeded EOF, endless, over-read stall; tagged / silence-first / "
+         "signed values); after construction and after every demand step "
+         "the reads of every source are bounded by a minimal-read reference "
+         "pipeline driven by the same schedule. Samples pipelines and "
+         "schedules; a clean batch is evidence, not proof.",
     note="Trusted: the minimal-read reference generators (one per stage "
          "family, DESIGN.md section 4 C02 table), the simulator kernel. "
          "Upper bound only: a lazier implementation is never flagged.",
@@ -41,10 +45,15 @@ CLAIMED = {
               "simulator-owned readers with seeded EOF instants and step-wise "
               "demand; read-once accounting + Fraction difference-equation "
               "reference model",
-    text="Seeded time-varying filters (single, sum, product, scaled, variable "
-         "a0) run on simulator-owned input and coefficient readers; per "
-         "output sample the accounting clause (each reader read exactly "
-         "once), the end clause (output ends at the first reader EOF) and the "
+    text="Seeded time-varying filters (single, sum, difference, product, "
+         "quotient, power, negation, scaling by constant or Stream, filter "
+         "+- scalar, reuse through copy() or a shared denominator, variable "
+         "a0, empty numerator with non-zero memory, finite constant streams) "
+         "run on simulator-owned input and coefficient readers; per output "
+         "sample the accounting clause (each reader read exactly once; "
+         "exactly N reads when only the input ends after N), the end clause "
+         "(output ends at the first reader EOF), the algebra clause "
+         "(rational-function equality with the operands at every n) and the "
          "difference equation in exact arithmetic are checked.",
     note="Trusted: the Fraction difference-equation model run on the "
          "filter's own coefficient sequences; integer constants only.",
@@ -83,10 +92,16 @@ CLAIMED = {
               "yield points), fake PyAudio backend with stall faults; device "
               "history safety oracle + bounded shutdown liveness",
     text="Seeded search over thread schedules (random walk, sticky, "
-         "run-to-block, PCT), control histories and device stalls for 1-3 "
-         "players; safety over the recorded device history, liveness as "
-         "close() returning within a step bound once faults stop; deadlocks "
-         "reported with every thread's blocking point.",
+         "run-to-block, PCT, line pre-emption, hot-line window holding), "
+         "control histories, device stalls and late thread starts for 1-3 "
+         "players (lists, generators, endless streams, an input device "
+         "looped to the output) plus record streams; safety over the "
+         "recorded device history of a state-tracking fake PortAudio "
+         "(framing decoded with the arguments the device was opened with, "
+         "content, order, no write to a stopped/closed stream, promptness "
+         "after stop), shutdown post-conditions, liveness as close() "
+         "returning within a step bound once faults stop; deadlocks reported "
+         "with every thread's blocking point.",
     note="Trusted: SimLock/SimEvent equivalence to threading.Lock/Event, the "
          "fake PyAudio call interface, fairness cap. Pre-emption granularity "
          "is the source line.",
